@@ -549,7 +549,11 @@ func (d *DBFT[H]) onChangeView(msg ConsensusPayload[H]) {
 	)
 
 	d.ChangeViewPayloads[msg.ValidatorIndex()] = msg
-	d.checkChangeView(p.NewViewNumber())
+	// A request for some view counts for every view below it too, so M requests
+	// can be collected for a lower view than the one this message asks for.
+	for v := p.NewViewNumber(); v > d.ViewNumber; v-- {
+		d.checkChangeView(v)
+	}
 }
 
 func (d *DBFT[H]) onPreCommit(msg ConsensusPayload[H]) {
